@@ -1,4 +1,6 @@
 (* Model of the failure flags of the frontend and of kddp's exit status (C07).
+   The machine takes a `config`: `pinned` is the code as pinned (three defects), `repaired` the code
+   with the three proposed repairs; checks/c07.py determines on every run which one /repo is.
 
    Mirrors, flag by flag:
      src/parser/parser.go:127-134    wrapper around the caller's handler sets parser.errored on LEVEL_ERROR
@@ -33,6 +35,15 @@ Record diag := mkDiag { d_org : origin; d_lvl : level; d_mod : nat; d_code : N }
 Definition is_err (l : level) : bool := match l with LError => true | LWarn => false end.
 Definition diag_is_err (e : diag) : bool := is_err (d_lvl e).
 
+(* which of the three repairs proposed for the defects of the pinned tree are present in the code *)
+Record config := mkCfg {
+  cfg_inst_restores : bool;   (* InstantiateGenericFunction restores Ast.Faulty of the declaring module when it returns *)
+  cfg_scan_counts   : bool;   (* parser.Parse: Faulty := Faulty || (the module's scanner reported an error) *)
+  cfg_nolink_checks : bool    (* compiler.Compile refuses a faulty main module also with LinkInModules = false *)
+}.
+Definition pinned : config := mkCfg false false false.     (* the code as pinned *)
+Definition repaired : config := mkCfg true true true.
+
 Inductive ckind := KMain | KInst.
 
 (* an argument parser of checkAlias *)
@@ -50,7 +61,8 @@ Record ctx := mkCtx {
   c_cand    : list diag;            (* reported_errors of the alias candidate under inspection *)
   c_args    : list arg;             (* open argument parsers, innermost first *)
   c_silent  : list (bool * bool * bool); (* EvaluateSilent: saved (handler is Empty, Faulty, panic) *)
-  c_rtempty : bool                  (* typechecker.ErrorHandler == EmptyHandler *)
+  c_rtempty : bool;                 (* typechecker.ErrorHandler == EmptyHandler *)
+  c_saved   : bool                  (* KInst: Ast.Faulty of the declaring module when the instantiation began *)
 }.
 
 Record glob := mkGlob {
@@ -60,7 +72,8 @@ Record glob := mkGlob {
   g_finished  : list nat;           (* modules whose Parse has returned *)
   g_delivered : list diag;          (* calls of the user's handler, latest first *)
   g_stale     : bool;               (* ghost: a resolver/typechecker set Faulty of a module that is not being parsed *)
-  g_rootscan  : bool                (* ghost: the root's scanner delivered an error-level diagnostic *)
+  g_rootscan  : bool;               (* ghost: the root's scanner delivered an error-level diagnostic *)
+  g_scanerr   : nat -> bool         (* the module's own scanner reported an error (scanErrored of the repaired Parse) *)
 }.
 
 Record state := mkSt { s_g : glob; s_stack : list ctx }.
@@ -87,27 +100,27 @@ Definition upd (f : nat -> bool) (m : nat) (v : bool) : nat -> bool := fun x => 
 Definition mark (ws : list nat) (f : nat -> bool) : nat -> bool := fun x => if mem x ws then true else f x.
 
 Definition set_panic (b : bool) (c : ctx) : ctx :=
-  mkCtx (c_kind c) (c_mod c) (c_wraps c) (c_spec c) (c_pending c) b (c_bag c) (c_cand c) (c_args c) (c_silent c) (c_rtempty c).
+  mkCtx (c_kind c) (c_mod c) (c_wraps c) (c_spec c) (c_pending c) b (c_bag c) (c_cand c) (c_args c) (c_silent c) (c_rtempty c) (c_saved c).
 Definition set_spec (sp : option (option diag)) (c : ctx) : ctx :=
-  mkCtx (c_kind c) (c_mod c) (c_wraps c) sp (c_pending c) (c_panic c) (c_bag c) (c_cand c) (c_args c) (c_silent c) (c_rtempty c).
+  mkCtx (c_kind c) (c_mod c) (c_wraps c) sp (c_pending c) (c_panic c) (c_bag c) (c_cand c) (c_args c) (c_silent c) (c_rtempty c) (c_saved c).
 Definition set_pending (pd : option diag) (c : ctx) : ctx :=
-  mkCtx (c_kind c) (c_mod c) (c_wraps c) (c_spec c) pd (c_panic c) (c_bag c) (c_cand c) (c_args c) (c_silent c) (c_rtempty c).
+  mkCtx (c_kind c) (c_mod c) (c_wraps c) (c_spec c) pd (c_panic c) (c_bag c) (c_cand c) (c_args c) (c_silent c) (c_rtempty c) (c_saved c).
 Definition set_bag (b : list diag) (c : ctx) : ctx :=
-  mkCtx (c_kind c) (c_mod c) (c_wraps c) (c_spec c) (c_pending c) (c_panic c) b (c_cand c) (c_args c) (c_silent c) (c_rtempty c).
+  mkCtx (c_kind c) (c_mod c) (c_wraps c) (c_spec c) (c_pending c) (c_panic c) b (c_cand c) (c_args c) (c_silent c) (c_rtempty c) (c_saved c).
 Definition set_cand (b : list diag) (c : ctx) : ctx :=
-  mkCtx (c_kind c) (c_mod c) (c_wraps c) (c_spec c) (c_pending c) (c_panic c) (c_bag c) b (c_args c) (c_silent c) (c_rtempty c).
+  mkCtx (c_kind c) (c_mod c) (c_wraps c) (c_spec c) (c_pending c) (c_panic c) (c_bag c) b (c_args c) (c_silent c) (c_rtempty c) (c_saved c).
 Definition set_args (a : list arg) (c : ctx) : ctx :=
-  mkCtx (c_kind c) (c_mod c) (c_wraps c) (c_spec c) (c_pending c) (c_panic c) (c_bag c) (c_cand c) a (c_silent c) (c_rtempty c).
+  mkCtx (c_kind c) (c_mod c) (c_wraps c) (c_spec c) (c_pending c) (c_panic c) (c_bag c) (c_cand c) a (c_silent c) (c_rtempty c) (c_saved c).
 Definition set_silent (sl : list (bool * bool * bool)) (e : bool) (c : ctx) : ctx :=
-  mkCtx (c_kind c) (c_mod c) (c_wraps c) (c_spec c) (c_pending c) (c_panic c) (c_bag c) (c_cand c) (c_args c) sl e.
+  mkCtx (c_kind c) (c_mod c) (c_wraps c) (c_spec c) (c_pending c) (c_panic c) (c_bag c) (c_cand c) (c_args c) sl e (c_saved c).
 
 Definition set_errored (f : nat -> bool) (g : glob) : glob :=
-  mkGlob f (g_faulty g) (g_seen g) (g_finished g) (g_delivered g) (g_stale g) (g_rootscan g).
+  mkGlob f (g_faulty g) (g_seen g) (g_finished g) (g_delivered g) (g_stale g) (g_rootscan g) (g_scanerr g).
 Definition set_faulty (f : nat -> bool) (g : glob) : glob :=
-  mkGlob (g_errored g) f (g_seen g) (g_finished g) (g_delivered g) (g_stale g) (g_rootscan g).
+  mkGlob (g_errored g) f (g_seen g) (g_finished g) (g_delivered g) (g_stale g) (g_rootscan g) (g_scanerr g).
 
-Definition new_ctx (k : ckind) (m : nat) (ws : list nat) : ctx :=
-  mkCtx k m ws None None false [] [] [] [] false.
+Definition new_ctx (k : ckind) (m : nat) (ws : list nat) (saved : bool) : ctx :=
+  mkCtx k m ws None None false [] [] [] [] false saved.
 
 (* modules whose main parser is on the stack *)
 Fixpoint inprogress (st : list ctx) : list nat :=
@@ -120,7 +133,7 @@ Fixpoint inprogress (st : list ctx) : list nat :=
 (* the caller's handler behind the wrappers ws *)
 Definition to_user (ws : list nat) (e : diag) (g : glob) : glob :=
   mkGlob (if diag_is_err e then mark ws (g_errored g) else g_errored g)
-         (g_faulty g) (g_seen g) (g_finished g) (e :: g_delivered g) (g_stale g) (g_rootscan g).
+         (g_faulty g) (g_seen g) (g_finished g) (e :: g_delivered g) (g_stale g) (g_rootscan g) (g_scanerr g).
 
 (* the handler the parser was created with: wrapper chain (KMain) or collector (KInst) *)
 Definition emit_base (e : diag) (c : ctx) (g : glob) : ctx * glob :=
@@ -161,7 +174,7 @@ Definition err_val (e : diag) (c : ctx) (g : glob) : ctx * glob :=
 (* Module.Ast.Faulty = true, written by a resolver or typechecker *)
 Definition mark_faulty (inprog : list nat) (m : nat) (g : glob) : glob :=
   mkGlob (g_errored g) (upd (g_faulty g) m true) (g_seen g) (g_finished g) (g_delivered g)
-         (g_stale g || negb (mem m inprog)) (g_rootscan g).
+         (g_stale g || negb (mem m inprog)) (g_rootscan g) (g_scanerr g).
 
 (* resolver.err / typechecker.err: the resolver keeps the handler it was created with, the
    typechecker's may have been replaced by EvaluateSilent *)
@@ -177,7 +190,8 @@ Definition rt_err (o : origin) (e : diag) (inprog : list nat) (c : ctx) (g : glo
 Definition scan_err (e : diag) (c : ctx) (g : glob) : glob :=
   let g1 := to_user (tl (c_wraps c)) e g in
   mkGlob (g_errored g1) (g_faulty g1) (g_seen g1) (g_finished g1) (g_delivered g1) (g_stale g1)
-         (g_rootscan g1 || (diag_is_err e && match tl (c_wraps c) with [] => true | _ => false end)).
+         (g_rootscan g1 || (diag_is_err e && match tl (c_wraps c) with [] => true | _ => false end))
+         (if diag_is_err e then upd (g_scanerr g1) (c_mod c) true else g_scanerr g1).
 
 Fixpoint replay (l : list diag) (c : ctx) (g : glob) : ctx * glob :=
   match l with
@@ -186,7 +200,7 @@ Fixpoint replay (l : list diag) (c : ctx) (g : glob) : ctx * glob :=
   end.
 
 (* ---- the machine ---------------------------------------------------------------------------- *)
-Definition step (s : state) (ev : event) : option state :=
+Definition step (cfg : config) (s : state) (ev : event) : option state :=
   match s_stack s with
   | [] => None                                  (* the root's Parse has returned: nothing can follow *)
   | c :: rest =>
@@ -235,11 +249,12 @@ Definition step (s : state) (ev : event) : option state :=
     | ECandReplay => ret (replay (rev (cur_cand c)) (set_cur_cand [] c) g)
     | ECandWrap code => ret (err_val (mkDiag OParser LError (c_mod c) code) (set_cur_cand [] c) g)
     | EInstBegin d =>
-        if mem d (g_seen g) then Some (mkSt g (new_ctx KInst d [] :: c :: rest)) else None
+        if mem d (g_seen g) then Some (mkSt g (new_ctx KInst d [] (g_faulty g d) :: c :: rest)) else None
     | EInstEnd keep =>
         match c_kind c, c_args c, c_spec c, c_silent c, rest with
         | KInst, [], None, [], p :: rest' =>
-            Some (mkSt g ((if keep then set_cur_cand (c_bag c ++ cur_cand p) p else p) :: rest'))
+            Some (mkSt (if cfg_inst_restores cfg then set_faulty (upd (g_faulty g) (c_mod c) (c_saved c)) g else g)
+                       ((if keep then set_cur_cand (c_bag c ++ cur_cand p) p else p) :: rest'))
         | _, _, _, _, _ => None
         end
     | EImportBegin m =>
@@ -247,32 +262,33 @@ Definition step (s : state) (ev : event) : option state :=
         | KMain, [], None =>
             if mem m (g_seen g) then None
             else Some (mkSt (mkGlob (g_errored g) (g_faulty g) (m :: g_seen g) (g_finished g) (g_delivered g)
-                                    (g_stale g) (g_rootscan g))
-                            (new_ctx KMain m (m :: c_wraps c) :: c :: rest))
+                                    (g_stale g) (g_rootscan g) (g_scanerr g))
+                            (new_ctx KMain m (m :: c_wraps c) false :: c :: rest))
         | _, _, _ => None
         end
     | EFinish =>
         match c_kind c, c_args c, c_spec c, c_silent c with
         | KMain, [], None, [] =>
-            Some (mkSt (mkGlob (g_errored g) (upd (g_faulty g) (c_mod c) (g_errored g (c_mod c))) (g_seen g)
-                               (c_mod c :: g_finished g) (g_delivered g) (g_stale g) (g_rootscan g))
+            Some (mkSt (mkGlob (g_errored g)
+                               (upd (g_faulty g) (c_mod c) (g_errored g (c_mod c) || (cfg_scan_counts cfg && g_scanerr g (c_mod c))))
+                               (g_seen g) (c_mod c :: g_finished g) (g_delivered g) (g_stale g) (g_rootscan g) (g_scanerr g))
                        rest)
         | _, _, _, _ => None
         end
     end
   end.
 
-Fixpoint run (s : state) (tr : list event) : option state :=
+Fixpoint run (cfg : config) (s : state) (tr : list event) : option state :=
   match tr with
   | [] => Some s
-  | ev :: r => match step s ev with Some s1 => run s1 r | None => None end
+  | ev :: r => match step cfg s ev with Some s1 => run cfg s1 r | None => None end
   end.
 
 Definition init : state :=
-  mkSt (mkGlob (fun _ => false) (fun _ => false) [0] [] [] false false) [new_ctx KMain 0 [0]].
+  mkSt (mkGlob (fun _ => false) (fun _ => false) [0] [] [] false false (fun _ => false)) [new_ctx KMain 0 [0] false].
 
 (* a complete, well-bracketed frontend run: every event was admissible and the root's Parse returned *)
-Definition complete (tr : list event) (s : state) : Prop := run init tr = Some s /\ s_stack s = [].
+Definition complete (cfg : config) (tr : list event) (s : state) : Prop := run cfg init tr = Some s /\ s_stack s = [].
 
 (* ---- observables ------------------------------------------------------------------------------ *)
 Definition delivered_error (s : state) : bool := existsb diag_is_err (g_delivered (s_g s)).
@@ -283,8 +299,8 @@ Definition delivered (s : state) : list diag := rev (g_delivered (s_g s)).
 (* compiler.Compile after the frontend. link_modules = the option --module-linken (default true);
    codegen_ok = the code generator and LLVM accept the module(s) (external). *)
 Inductive outcome := Object | Refused | CodegenFailed.
-Definition compile (link_modules codegen_ok : bool) (s : state) : outcome :=
-  if link_modules && any_faulty s then Refused
+Definition compile (cfg : config) (link_modules codegen_ok : bool) (s : state) : outcome :=
+  if (link_modules && any_faulty s) || (cfg_nolink_checks cfg && root_faulty s) then Refused
   else if codegen_ok then Object else CodegenFailed.
 Definition exit_status (o : outcome) : nat := match o with Object => 0 | _ => 1 end.
 Definition artifact (o : outcome) : bool := match o with Object => true | _ => false end.
